@@ -27,6 +27,8 @@ def seed_files(rnd, big=False):
                 if big and k % 4 == 0:
                     sizes = [40000, 70000, 5, 33000]
                 chunks = [d] + [(text(rnd, n) if rnd.random() < 0.6 else rand(rnd, n)) for n in sizes]
+                if k % 7 == 3 and len(chunks) >= 3:
+                    chunks.append(chunks[1]); chunks.insert(2, chunks[1])        # the same chunk three times (one checksum, three index entries)
                 pad = (0, 0, 1, 0, 40)[k % 5]       # some with a padded header (stored header length larger than the sections)
                 buf, stored = ref.build_file(chunks, comp_type=comp, hash_type=ht, chunk_hash_type=cht, flags=flags, level=rnd.choice([1, 3, 9]), pad=pad)
                 out.append(("seed%d-c%d-d%d-h%d%d-f%d%s" % (k, comp, int(dic), ht, cht, flags, "-pad%d" % pad if pad else ""), buf, chunks))
